@@ -117,3 +117,37 @@ func ReadNDJSON(path string, f func(line []byte) error) error {
 	}
 	return sc.Err()
 }
+
+// Merge adds the counts, samples and divergences of o into r.
+func (r *Report) Merge(o *Report) {
+	r.mu.Lock()
+	defer r.mu.Unlock()
+	r.Evaluations += o.Evaluations
+	r.DistinctNontrivial += o.DistinctNontrivial
+	r.Inconclusive += o.Inconclusive
+	for _, s := range o.Samples {
+		if len(r.Samples) < 3 {
+			r.Samples = append(r.Samples, s)
+		}
+	}
+	for _, d := range o.Divergences {
+		r.divCount[d.Key]++
+		if r.divCount[d.Key] <= 20 {
+			r.Divergences = append(r.Divergences, d)
+		}
+	}
+	for k, v := range o.Extra {
+		if k == "divergence_counts" {
+			continue
+		}
+		switch x := v.(type) {
+		case float64:
+			cur, _ := r.Extra[k].(float64)
+			r.Extra[k] = cur + x
+		default:
+			if _, ok := r.Extra[k]; !ok {
+				r.Extra[k] = v
+			}
+		}
+	}
+}
